@@ -246,7 +246,7 @@ theorem getGrant_spec {gs : List Grant} {a b k : Nat} {g : Grant} (h : getGrant 
       exact ⟨List.mem_cons_of_mem _ hm, r⟩
 
 /-- grants of kind 2 (`WithdrawCampaignAuthorization`) exist only in the patched variant -/
-def NoWithdrawGrant (s : State) : Prop := ∀ g ∈ s.grants, g.kind = 2 → s.fixed = true
+def NoWithdrawGrant (s : State) : Prop := ∀ g ∈ s.grants, g.kind = 2 → s.codecFixed = true
 
 theorem authStep_kinds {time : Nat} {gs gs' : List Grant} {creator promoter kind : Nat} {amount : Option Int}
     (h : authStep time gs creator promoter kind amount = .ok gs') :
@@ -265,7 +265,7 @@ theorem authStep_kinds {time : Nat} {gs gs' : List Grant} {creator promoter kind
 
 theorem noWithdrawGrant_exec {s s' : State} {op : Op} (hN : NoWithdrawGrant s) (h : exec s op = .ok s') :
     NoWithdrawGrant s' := by
-  have keep : ∀ {t : State}, t.fixed = s.fixed → (∀ x ∈ t.grants, ∃ y ∈ s.grants, y.kind = x.kind) → NoWithdrawGrant t := by
+  have keep : ∀ {t : State}, t.codecFixed = s.codecFixed → (∀ x ∈ t.grants, ∃ y ∈ s.grants, y.kind = x.kind) → NoWithdrawGrant t := by
     intro t hf hk g hg h2
     obtain ⟨y, hy, hyk⟩ := hk g hg
     rw [hf]; exact hN y hy (by rw [hyk]; exact h2)
